@@ -72,6 +72,11 @@ def gates_consulted(year, run):
             if t is not None:
                 said = t.strip().lower()
                 unsupported = said in (TRUE_TEXT if ent['polarity'] else FALSE_TEXT)
+                if said not in TRUE_TEXT + FALSE_TEXT:
+                    try:        # an amount that gates as "any / none"
+                        unsupported = (float(said) != 0) == bool(ent['polarity'])
+                    except ValueError:
+                        pass
             else:
                 unsupported = e[3][1] == affirmative(ent)
             if unsupported:
@@ -144,11 +149,26 @@ def eval_gates(case, acc=None):
         ent = cat.get(gate_key(q))
         if ent is None:
             continue
-        text = 'yes' if ent['polarity'] else 'no'
+        # any spelling the input itself accepts for that answer
+        spec = shipped.Persona(case['persona']).spec(q) or {}
+        if spec.get('type') == 'bool':
+            text = rng.pick(['yes', 'yes', 'y', 'true', '1', 'on', 'YES', 'True', ' yes'] if ent['polarity']
+                            else ['no', 'no', 'n', 'false', '0', 'off', 'No', 'FALSE'])
+        elif spec.get('type') in ('float', 'int') and ent['polarity']:
+            text = rng.pick(['1', '250', '1200'])       # an amount where only "none" is supported
+        else:
+            text = 'yes' if ent['polarity'] else 'no'
         sched = (rng.randrange(1 << 32), rng.pick([0, 1, 3]))
         names = [n for n in basel.supplied if rng.chance(0.5)] if rng.chance(0.7) else list(case['file'])
-        how = rng.pick(['fresh', 'fresh', 'reuse', 'resolve'])
-        if how == 'fresh':
+        how = rng.pick(['fresh', 'fresh', 'reuse', 'resolve', 'cli'])
+        if how == 'cli':
+            # the same declaration through `habutax solve` (habutax.main(), real prompt loop, --form per requested form)
+            import copy
+            c2 = copy.deepcopy(case)
+            c2['persona']['over'][q] = text
+            c2.update(file=list(names), sched=list(sched), prompt=True, refuse_at=None)
+            run = shipped_props.execute_cli(c2)
+        elif how == 'fresh':
             run = shipped.execute(case['persona'], file_names=names, sched=sched, prompt=True, layout=case.get('layout'),
                                   overrides={q: text})
         elif how == 'reuse':
